@@ -100,10 +100,30 @@ macro_rules! kes_driver {
             let by_path: HashMap<Vec<u8>, [u8; 32]> = seeds.iter().map(|(k, v)| (v.clone(), *k)).collect();
             let msgs: Vec<Vec<u8>> = (0..3).map(|i| { let n = cx.rng.below(40) as usize + i; cx.rng.bytes(n) }).collect();
             let mut seed = master;
+            // the key buffer handed to keygen is never clean: random bytes, or the bytes of an
+            // older, evolved key of the same type (a reused working buffer)
             let mut buf = vec![0u8; $sk::SIZE + 4];
+            let mut old_master = [0u8; 32];
+            cx.rng.fill(&mut old_master);
+            let old_seeds = tree_seeds(&old_master, D);
+            let dirty = if cx.rng.bool() {
+                cx.rng.fill(&mut buf);
+                "random"
+            } else {
+                let mut old_buf = vec![0u8; $sk::SIZE + 4];
+                let mut old_seed = old_master;
+                let ups = 1 + cx.rng.below(total as u64 - 1);
+                let _ = catch(|| {
+                    let (mut osk, _) = $sk::keygen(&mut old_buf, &mut old_seed);
+                    for _ in 0..ups { let _ = osk.update(); }
+                    buf.copy_from_slice(osk.as_bytes());
+                });
+                "oldkey"
+            };
             let r = catch(|| {
                 let (mut sk, pk) = $sk::keygen(&mut buf, &mut seed);
-                let ev = json!({"ev": "keygen", "depth": D, "compact": $compact,
+                let ev = json!({"ev": "keygen", "depth": D, "compact": $compact, "dirty": dirty,
+                    "stale": scan(sk.as_bytes(), &old_seeds),
                     "pk": cx.pks.id(pk.as_bytes()), "to_pk": cx.pks.id(sk.to_pk().as_bytes()),
                     "period": sk.get_period(), "size": sk.as_bytes().len(),
                     "found": scan(sk.as_bytes(), &seeds)});
